@@ -263,6 +263,11 @@ func replay(out *vh.Out, inPath string) {
 			if src == nil {
 				src = c.Tree
 			}
+			// the canary commands name the scratch directory of the run that produced the case
+			if c.CDir != "" {
+				src = src.Clone()
+				src.rewrite(c.CDir, filepath.Join(scratch, "canary"))
+			}
 			out.Put(runC19(k, c.Stream, c.Planted, src))
 		case "raw":
 			var c RawCase
